@@ -180,7 +180,8 @@ def simulate(name, prog, threads, nf, extra, num, seed, workdir):
         raise RuntimeError("simulation of the design violated an invariant (%s):\n%s" % (name, r.stdout[-2000:]))
     hists = []
     for m in re.finditer(r'<<"HIST", "(.*?)">>', r.stdout.replace("\n", "")):
-        hists.append(json.loads(m.group(1).replace('\\"', '"')))
+        d = json.loads(m.group(1).replace('\\"', '"'))
+        hists.append((d["h"], d["rets"]))
     return hists
 
 
@@ -194,6 +195,8 @@ def jobs(tier, seed, workdir, start_id=0):
         hists = simulate(name, prog, threads, nf, extra, per, seed, workdir)
         stats["behaviours"] += len(hists)
         # greedy cover
+        rets = [h[1] for h in hists]
+        hists = [h[0] for h in hists]
         feats = [features(h) for h in hists]
         covered, chosen = set(), []
         order = sorted(range(len(hists)), key=lambda i: -len(feats[i]))
@@ -219,7 +222,8 @@ def jobs(tier, seed, workdir, start_id=0):
         p = real_program(prog, strat)
         for i in chosen:
             out.append({"fam": "tlc:" + name, "prog": p, "sched": {"kind": "until", "segs": to_segments(hists[i])},
-                        "model_len": len(hists[i])})
+                        "model_len": len(hists[i]),
+                        "model_rets": [[r[0], r[1], r[2]] for r in rets[i] if r[1] in ("load", "load_full", "swap", "rcu", "cache_new", "cache_load")]})
     stats["selected"] = len(out)
     for i, j in enumerate(out):
         j["id"] = start_id + i
